@@ -226,6 +226,44 @@ PROPS = {
                 "verifiers: accepted => statement true of the inserted leaf set, honest proof => accepted",
         "assumptions": [],
     },
+    "C06": {
+        "thm_module": ["AkdModel.Thm.C05"],
+        "theorems": ["Akd.C05.membership_sound_leaf", "Akd.C05.nonmembership_sound", "Akd.C05.membership_sound"],
+        "streams": ["l1.dir.c06"],
+        "rule": "histories with a label updated in every epoch; for every label after every second publish the symbolic adversary "
+                "assembles lookup proofs the way a server holding key and tree can: every older version served with all its "
+                "sub-proofs regenerated, its freshness proof forged at every ancestor of the stale leaf or swapped with another "
+                "label's, altered value / epoch / version field (incl. > current epoch) / nonce, sibling-less root proofs for marker "
+                "and existence, sub-proofs of other labels; verified by the real lookup_verify (compared with the model's verdict); "
+                "oracle: accepted => result equals the honest verified result (latest version, value, epoch)",
+        "assumptions": ["VRF contract: a proof identifies the input it was generated for (harness: byte-equal to the honest proof)"],
+    },
+    "C07": {
+        "thm_module": ["AkdModel.Thm.C05", "AkdModel.Thm.C08"],
+        "theorems": ["Akd.C05.membership_sound_leaf", "Akd.C05.nonmembership_sound", "Akd.C08.succ_mem_future",
+                     "Akd.C08.future_bounds", "Akd.C08.past_lt_start"],
+        "streams": ["l1.dir.c07"],
+        "rule": "histories; for every label, Complete / MostRecent(2) / MostRecent(n), both verification modes: the honest proof "
+                "edited by the symbolic adversary — newest/oldest entries dropped with marker proofs regenerated, absence of the "
+                "dropped versions forged at every ancestor, gaps, duplicates, reorderings, value / epoch substitutions, tombstoned "
+                "entries, missing previous-version proofs, dropped / root-proof marker proofs, and invented histories for "
+                "unpublished labels; verified by the real key_history_verify (compared with the model's verdict); oracle: accepted "
+                "=> the result is the true version list for the parameter (values empty only in allow mode, epochs true except "
+                "known finding C07-F1)",
+        "assumptions": ["VRF contract as in C06"],
+    },
+    "C09": {
+        "thm_module": ["AkdModel.Thm.C01b", "AkdModel.Thm.C01a"],
+        "theorems": ["Akd.C01.batchInsert_refines", "Akd.C01.wf_unique", "Akd.C01.rootHash_injective"],
+        "streams": ["l1.dir.c09"],
+        "rule": "random histories; after every effective publish the honest single-epoch audit proof of the latest transition is "
+                "edited by the symbolic adversary (inserted label extending / equal to / a prefix (0,1,2,7,8 bits) of an "
+                "unchanged node's label, dropped / duplicated / moved / relabelled unchanged and inserted nodes, wrong epoch, extra "
+                "leaves) and verified by the real verify_consecutive_append_only against the real start hash and either the real "
+                "end hash or the hash of the tree the auditor's own rebuild produces (the server chooses the end hash); oracle: "
+                "accepted => every leaf of the earlier tree still lies under a surviving real node of the rebuilt tree",
+        "assumptions": [],
+    },
     "C08": {
         "thm_module": "AkdModel.Thm.C08",
         "theorems": ["Akd.C08.history_history_agree", "Akd.C08.markers_no_panic", "Akd.C08.past_lt_start",
